@@ -126,7 +126,8 @@ def run(prog, ctx):
         buf = [(n, t) for n, t in fields if t.startswith("[u8; ")]
         cnt = [n for n, t in fields if t == "usize"]
         if not buf or not cnt:
-            res.violate("C16.B", "C16.B|%s|fields" % ty, "%s no longer has a byte buffer and a usize counter" % ty)
+            res.obligations += 1
+            res.undecided += 1      # buffer / counter held in a different shape
             continue
         block = int(buf[0][1][5:-1])
         s = Sym(prog, f)
@@ -334,10 +335,13 @@ def run(prog, ctx):
                 res.violate("C16.D", "C16.D|coupon", "hll::coupon is %s, expected ((min(lz(h2),62)+1) << 26) | (h1 & (2^26-1)): %s" % (show(e)[:120], cex), fc.id)
             else:
                 res.undecided += 1
-            if sym.contains(e, lambda t: t[0] == "agg" and "MurmurHash3X64128" in t[1] and t[2][0] == ("const", 9001)):
+            seeds = [t[2][0] for t in sym.walk(e) if t[0] == "agg" and "MurmurHash3X64128" in t[1] and t[2]]
+            if any(x == ("const", 9001) for x in seeds):
                 res.discharged += 1
+            elif seeds and all(x[0] == "const" for x in seeds):
+                res.violate("C16.D", "C16.D|coupon-seed", "hll::coupon hashes with seed %s, expected the default seed 9001" % [show(x) for x in seeds], fc.id)
             else:
-                res.violate("C16.D", "C16.D|coupon-seed", "hll::coupon does not hash with the default seed 9001", fc.id)
+                res.undecided += 1
         else:
             res.undecided += 2
     fs = prog.fns.get("hash::compute_seed_hash")
@@ -363,6 +367,8 @@ def run(prog, ctx):
     res.obligations += 1
     if ds is not None and ds.get("v") == 9001:
         res.discharged += 1
+    elif ds is None:
+        res.undecided += 1
     else:
         res.violate("C16.D", "C16.D|default-seed", "DEFAULT_UPDATE_SEED is %s, expected 9001" % (ds.get("v") if ds else None))
     res.rule("C16.D", n_d, 3, "derivations")
